@@ -7,21 +7,21 @@ From BV Require Import lib.Ints model.CryptoBase model.CryptoMD model.CryptoSHA3
 Local Open Scope Z_scope.
 
 (* ================= test vectors ================= *)
-Definition hexdigest (l : list N) : Z := be_value l.
+Definition sha3_hexdigest (l : list N) : Z := be_value l.
 Definition bytes_seq251 (n : nat) : list N := map (fun i => N.of_nat (i mod 251)) (seq 0 n).
 
 (* NIST example values / FIPS 202 *)
 Example sha3_256_vector_empty :
-  hexdigest (sha3_256_spec []) = 0xa7ffc6f8bf1ed76651c14756a061d662f580ff4de43b49fa82d80a4b80f8434a.
+  sha3_hexdigest (sha3_256_spec []) = 0xa7ffc6f8bf1ed76651c14756a061d662f580ff4de43b49fa82d80a4b80f8434a.
 Proof. vm_compute. reflexivity. Qed.
 
 Example sha3_256_vector_abc :
-  hexdigest (sha3_256_spec [97; 98; 99]%N) = 0x3a985da74fe225b2045c172d6bd390bd855f086e3e9d525b46bfe24511431532.
+  sha3_hexdigest (sha3_256_spec [97; 98; 99]%N) = 0x3a985da74fe225b2045c172d6bd390bd855f086e3e9d525b46bfe24511431532.
 Proof. vm_compute. reflexivity. Qed.
 
 (* "abcdbcdecdefdefgefghfghighijhijkijkljklmklmnlmnomnopnopq" (448 bits) *)
 Example sha3_256_vector_448 :
-  hexdigest (sha3_256_spec [97;98;99;100; 98;99;100;101; 99;100;101;102; 100;101;102;103; 101;102;103;104;
+  sha3_hexdigest (sha3_256_spec [97;98;99;100; 98;99;100;101; 99;100;101;102; 100;101;102;103; 101;102;103;104;
                             102;103;104;105; 103;104;105;106; 104;105;106;107; 105;106;107;108; 106;107;108;109;
                             107;108;109;110; 108;109;110;111; 109;110;111;112; 110;111;112;113]%N)
   = 0x41c0dba2a9d6240849100376a8235e2c82e1b9998a999e21db32dd97496d3376.
@@ -31,21 +31,21 @@ Proof. vm_compute. reflexivity. Qed.
    200 bytes; message byte i = i mod 251; expected values from an independent implementation
    (Python hashlib.sha3_256) *)
 Example sha3_256_vector_135 :
-  hexdigest (sha3_256_spec (bytes_seq251 135)) = 0xfded8fd9d6551c601eeb3b7c6bc5e5cfd8aad1d015b7e9aaa9c9b9475231d5e2.
+  sha3_hexdigest (sha3_256_spec (bytes_seq251 135)) = 0xfded8fd9d6551c601eeb3b7c6bc5e5cfd8aad1d015b7e9aaa9c9b9475231d5e2.
 Proof. vm_compute. reflexivity. Qed.
 Example sha3_256_vector_136 :
-  hexdigest (sha3_256_spec (bytes_seq251 136)) = 0xcf3ccff92480a29160c2d38317c430e14749bfee1788106957dfe73f8c4930e5.
+  sha3_hexdigest (sha3_256_spec (bytes_seq251 136)) = 0xcf3ccff92480a29160c2d38317c430e14749bfee1788106957dfe73f8c4930e5.
 Proof. vm_compute. reflexivity. Qed.
 Example sha3_256_vector_137 :
-  hexdigest (sha3_256_spec (bytes_seq251 137)) = 0xce9d7dc90913ee5d92745019479a5352c6d6279bef18ed07dc0a83ee8084daca.
+  sha3_hexdigest (sha3_256_spec (bytes_seq251 137)) = 0xce9d7dc90913ee5d92745019479a5352c6d6279bef18ed07dc0a83ee8084daca.
 Proof. vm_compute. reflexivity. Qed.
 Example sha3_256_vector_200 :
-  hexdigest (sha3_256_spec (bytes_seq251 200)) = 0x5f728f63bf5ee48c77f453c0490398fa645b8d4c4e56be9a41cfec344d6ca899.
+  sha3_hexdigest (sha3_256_spec (bytes_seq251 200)) = 0x5f728f63bf5ee48c77f453c0490398fa645b8d4c4e56be9a41cfec344d6ca899.
 Proof. vm_compute. reflexivity. Qed.
 
 (* the model of the C++ object on fragmented input (with a non-zero uninitialised buffer) *)
 Example sha3_stream_vectors :
-  map (fun cs => hexdigest (sha3_stream [1;2;3;4;5;6;7;8]%N cs))
+  map (fun cs => sha3_hexdigest (sha3_stream [1;2;3;4;5;6;7;8]%N cs))
       [ []; [[97; 98; 99]]; [[97]; []; [98; 99]];
         [firstn 3 (bytes_seq251 137); firstn 130 (skipn 3 (bytes_seq251 137)); skipn 133 (bytes_seq251 137)] ]%N =
   [0xa7ffc6f8bf1ed76651c14756a061d662f580ff4de43b49fa82d80a4b80f8434a;
@@ -97,19 +97,28 @@ Proof. unfold mk_state. rewrite map_length, seq_length. reflexivity. Qed.
 Lemma keccak_round_length st rc : length (keccak_round st rc) = 25%nat.
 Proof. unfold keccak_round, keccak_iota. apply mk_state_length. Qed.
 
+Lemma fold_left_cons {A B} (f : A -> B -> A) b l a : fold_left f (b :: l) a = fold_left f l (f a b).
+Proof. reflexivity. Qed.
+
 Lemma keccak_fold_length rcs : forall st, length st = 25%nat -> length (fold_left keccak_round rcs st) = 25%nat.
 Proof.
-  induction rcs as [|rc rcs IH]; intros st Hl; [exact Hl|]. cbn [fold_left]. apply IH. apply keccak_round_length.
+  induction rcs as [|rc rcs IH]; intros st Hl; [exact Hl|]. rewrite fold_left_cons. apply IH. apply keccak_round_length.
 Qed.
 
 Lemma keccak_f_length st : length st = 25%nat -> length (keccak_f st) = 25%nat.
 Proof. apply keccak_fold_length. Qed.
 
+Lemma keccak_fold_eq rcs : forall st, length st = 25%nat ->
+  fold_left keccakf_cpp_round rcs st = fold_left keccak_round rcs st.
+Proof.
+  induction rcs as [|rc rcs IH]; intros st Hl; [reflexivity|]. rewrite !fold_left_cons.
+  rewrite (keccakf_cpp_round_eq st rc Hl). apply IH. apply keccak_round_length.
+Qed.
+
+(* KeccakF(st) of sha3.cpp = KECCAK-f[1600] = KECCAK-p[1600, 24] of FIPS 202, on every state *)
 Theorem keccakf_cpp_eq st : length st = 25%nat -> keccakf_cpp st = keccak_f st.
 Proof.
-  unfold keccakf_cpp, keccak_f. rewrite keccak_RC_eq_RNDC. generalize KECCAK_RNDC. intros rcs. revert st.
-  induction rcs as [|rc rcs IH]; intros st Hl; [reflexivity|]. cbn [fold_left].
-  rewrite keccakf_cpp_round_eq by exact Hl. apply IH. apply keccak_round_length.
+  intros Hl. unfold keccakf_cpp, keccak_f. rewrite keccak_RC_eq_RNDC. apply keccak_fold_eq. exact Hl.
 Qed.
 
 (* the permutation on a non-trivial state, both ways (and a known value: KECCAK-f[1600] of the
@@ -162,38 +171,38 @@ Lemma zeros_length k : length (zeros k) = k.
 Proof. apply repeat_length. Qed.
 
 (* ================= xoring lanes into the state ================= *)
-(* xor the words ws into the first lanes of S *)
-Fixpoint xor_in (S ws : list Z) : list Z :=
-  match S, ws with s :: S', w :: ws' => Z.lxor s w :: xor_in S' ws' | _, _ => S end.
+(* xor the words ws into the first lanes of T *)
+Fixpoint xor_in (T ws : list Z) : list Z :=
+  match T, ws with s :: T', w :: ws' => Z.lxor s w :: xor_in T' ws' | _, _ => T end.
 
-Lemma xor_in_nil S : xor_in S [] = S.
-Proof. destruct S; reflexivity. Qed.
+Lemma xor_in_nil T : xor_in T [] = T.
+Proof. destruct T; reflexivity. Qed.
 
-Lemma xor_in_length S : forall ws, length (xor_in S ws) = length S.
+Lemma xor_in_length T : forall ws, length (xor_in T ws) = length T.
 Proof.
-  induction S as [|s S IH]; intros ws; [reflexivity|]. destruct ws; [reflexivity|].
+  induction T as [|s T IH]; intros ws; [reflexivity|]. destruct ws; [reflexivity|].
   cbn [xor_in length]. rewrite IH. reflexivity.
 Qed.
 
-Lemma xor_in_zeros S : forall k, xor_in S (repeat 0 k) = S.
+Lemma xor_in_zeros T : forall k, xor_in T (repeat 0 k) = T.
 Proof.
-  induction S as [|s S IH]; intros k; [reflexivity|]. destruct k; [reflexivity|].
+  induction T as [|s T IH]; intros k; [reflexivity|]. destruct k; [reflexivity|].
   cbn [repeat xor_in]. rewrite Z.lxor_0_r, IH. reflexivity.
 Qed.
 
-Lemma xor_in_app_zeros S : forall ws k, xor_in S (ws ++ repeat 0 k) = xor_in S ws.
+Lemma xor_in_app_zeros T : forall ws k, xor_in T (ws ++ repeat 0 k) = xor_in T ws.
 Proof.
-  induction S as [|s S IH]; intros ws k; [reflexivity|].
+  induction T as [|s T IH]; intros ws k; [reflexivity|].
   destruct ws as [|w ws].
   - cbn [app]. rewrite xor_in_zeros. reflexivity.
   - cbn [app xor_in]. rewrite IH. reflexivity.
 Qed.
 
-(* S xor (P || 0^c) of the specification *)
-Lemma zip_xor_pad S : forall ws, (length ws <= length S)%nat ->
-  zip_xor S (ws ++ repeat 0 (length S - length ws)) = xor_in S ws.
+(* T xor (P || 0^c) of the specification *)
+Lemma zip_xor_pad T : forall ws, (length ws <= length T)%nat ->
+  zip_xor T (ws ++ repeat 0 (length T - length ws)) = xor_in T ws.
 Proof.
-  induction S as [|s S IH]; intros ws Hl.
+  induction T as [|s T IH]; intros ws Hl.
   - destruct ws; [reflexivity | simpl in Hl; lia].
   - destruct ws as [|w ws].
     + cbn [app length Nat.sub repeat zip_xor xor_in]. rewrite Z.lxor_0_r. f_equal.
@@ -203,10 +212,10 @@ Proof.
 Qed.
 
 (* m_state[i] ^= w at the first lane not yet touched *)
-Lemma xor_in_snoc S : forall ws w, (length ws < length S)%nat ->
-  st_set (xor_in S ws) (length ws) (Z.lxor (st_get (xor_in S ws) (length ws)) w) = xor_in S (ws ++ [w]).
+Lemma xor_in_snoc T : forall ws w, (length ws < length T)%nat ->
+  st_set (xor_in T ws) (length ws) (Z.lxor (st_get (xor_in T ws) (length ws)) w) = xor_in T (ws ++ [w]).
 Proof.
-  induction S as [|s S IH]; intros ws w Hl; [simpl in Hl; lia|].
+  induction T as [|s T IH]; intros ws w Hl; [simpl in Hl; lia|].
   destruct ws as [|w0 ws].
   - cbn [app xor_in length]. unfold st_set, st_get. cbn [firstn skipn nth app].
     rewrite xor_in_nil. reflexivity.
@@ -244,20 +253,31 @@ Notation process8 := (process (list Z * nat) 8 sha3_absorb_lane).
 
 Lemma pos136 : (0 < 136)%nat. Proof. lia. Qed.
 
-(* (m_state, m_pos) represents the sponge state S with the whole lanes P absorbed into the current
-   block: the lanes of P are already xored into S *)
+Lemma absorb136_pending sp d : length (snd (absorb136 sp d)) = (length (snd sp ++ d) mod 136)%nat.
+Proof. exact (absorb_pending_length (list Z) 136 sha3_absorb_block pos136 sp d). Qed.
+
+Lemma absorb136_from_empty T0 d :
+  absorb136 (T0, []) d =
+  (process (list Z) 136 sha3_absorb_block (length d / 136) T0 d, skipn (length d / 136 * 136) d).
+Proof. reflexivity. Qed.
+
+Lemma absorb136_absorb sp d1 d2 : absorb136 (absorb136 sp d1) d2 = absorb136 sp (d1 ++ d2).
+Proof. exact (absorb_absorb (list Z) 136 sha3_absorb_block pos136 sp d1 d2). Qed.
+
+(* (m_state, m_pos) represents the sponge state T with the whole lanes P absorbed into the current
+   block: the lanes of P are already xored into T *)
 Definition Rl (sp : list Z * nat) (SP : list Z * list N) : Prop :=
   fst sp = xor_in (fst SP) (le64_words (snd SP)) /\ length (snd SP) = (8 * snd sp)%nat /\
   (snd sp < 17)%nat /\ length (fst SP) = 25%nat.
 
-Lemma absorb136_small S Q d : (length Q + length d < 136)%nat -> absorb136 (S, Q) d = (S, Q ++ d).
+Lemma absorb136_small T Q d : (length Q + length d < 136)%nat -> absorb136 (T, Q) d = (T, Q ++ d).
 Proof.
   intros Hl. unfold absorb. cbn [fst snd].
   rewrite Nat.div_small by (rewrite app_length; exact Hl). reflexivity.
 Qed.
 
-Lemma absorb136_full S Q d : (length Q + length d = 136)%nat ->
-  absorb136 (S, Q) d = (sha3_absorb_block S (Q ++ d), []).
+Lemma absorb136_full T Q d : (length Q + length d = 136)%nat ->
+  absorb136 (T, Q) d = (sha3_absorb_block T (Q ++ d), []).
 Proof.
   intros Hl. unfold absorb. cbn [fst snd].
   assert (Hlen : length (Q ++ d) = 136%nat) by (rewrite app_length; exact Hl).
@@ -265,24 +285,25 @@ Proof.
   rewrite firstn_all2 by lia. rewrite skipn_all2 by lia. reflexivity.
 Qed.
 
-Lemma absorb_block_xor_in S block : length S = 25%nat -> length block = 136%nat ->
-  sha3_absorb_block S block = keccak_f (xor_in S (le64_words block)).
+Lemma absorb_block_xor_in T block : length T = 25%nat -> length block = 136%nat ->
+  sha3_absorb_block T block = keccak_f (xor_in T (le64_words block)).
 Proof.
   intros HS Hb. unfold sha3_absorb_block.
   pose proof (le64_words_length 17 block Hb) as Hw.
-  replace 8%nat with (length S - length (le64_words block))%nat by (rewrite HS, Hw; reflexivity).
+  replace 8%nat with (length T - length (le64_words block))%nat by (rewrite HS, Hw; reflexivity).
   rewrite zip_xor_pad by lia. reflexivity.
 Qed.
 
-Lemma lane_refines sp S P lane8 :
-  Rl sp (S, P) -> length lane8 = 8%nat -> Rl (sha3_absorb_lane sp lane8) (absorb136 (S, P) lane8).
+Lemma sha3_lane_refines sp T P lane8 :
+  Rl sp (T, P) -> length lane8 = 8%nat -> Rl (sha3_absorb_lane sp lane8) (absorb136 (T, P) lane8).
 Proof.
   destruct sp as [st pos]. intros (Hst & HP & Hpos & HS) Hlane. cbn [fst snd] in *.
   pose proof (le64_words_length pos P HP) as Hw.
   assert (Happ : le64_words (P ++ lane8) = le64_words P ++ [le_value lane8]).
   { rewrite (le64_words_app pos) by exact HP. rewrite (le64_words_8 lane8 Hlane). reflexivity. }
-  unfold sha3_absorb_lane. cbn [fst snd]. subst st.
-  rewrite <- Hw at 1 2. rewrite xor_in_snoc by lia. rewrite <- Happ.
+  unfold sha3_absorb_lane. cbn [fst snd]. cbv zeta. subst st.
+  pose proof (xor_in_snoc T (le64_words P) (le_value lane8) ltac:(lia)) as Hsnoc. rewrite Hw in Hsnoc.
+  rewrite Hsnoc. rewrite <- Happ.
   change SHA3_RATE_BUFFERS with 17%nat.
   destruct (S pos =? 17)%nat eqn:E.
   - apply Nat.eqb_eq in E.
@@ -293,7 +314,7 @@ Proof.
     rewrite keccakf_cpp_eq by (rewrite xor_in_length; exact HS).
     rewrite xor_in_nil.
     refine (conj _ (conj _ (conj _ _))); try reflexivity; try lia.
-    apply keccak_f_length. rewrite xor_in_length. exact HS.
+    all: apply keccak_f_length; rewrite xor_in_length; exact HS.
   - apply Nat.eqb_neq in E.
     rewrite absorb136_small by lia.
     unfold Rl. cbn [fst snd].
@@ -302,19 +323,19 @@ Proof.
 Qed.
 
 (* the while loop: n whole lanes *)
-Lemma lanes_refine n : forall data sp SP,
+Lemma sha3_lanes_refine n : forall data sp SP,
   Rl sp SP -> (8 * n <= length data)%nat ->
   Rl (process8 n sp data) (absorb136 SP (firstn (8 * n) data)).
 Proof.
   induction n as [|n IH]; intros data sp SP HR Hl.
   - cbn [process]. change (8 * 0)%nat with 0%nat. cbn [firstn].
-    destruct SP as [S P]. rewrite absorb136_small; [rewrite app_nil_r; exact HR|].
+    destruct SP as [T P]. rewrite absorb136_small; [rewrite app_nil_r; exact HR|].
     destruct HR as (_ & HP & Hpos & _). cbn [fst snd length] in *. lia.
   - cbn [process].
     replace (8 * S n)%nat with (8 + 8 * n)%nat by lia. rewrite firstn_plus.
     rewrite <- (absorb_absorb _ _ _ pos136).
     apply IH.
-    + destruct SP as [S P]. apply lane_refines; [exact HR|]. apply firstn_length_le. lia.
+    + destruct SP as [T P]. apply sha3_lane_refines; [exact HR|]. apply firstn_length_le. lia.
     + rewrite skipn_length. lia.
 Qed.
 
@@ -329,32 +350,37 @@ Proof.
   - rewrite !app_length, skipn_length. lia.
 Qed.
 
-(* the object represents the sponge state S with pending bytes Q = P ++ p: whole lanes P (already
+(* the object represents the sponge state T with pending bytes Q = P ++ p: whole lanes P (already
    xored into m_state) and the partial lane p held in m_buffer *)
 Definition Rsha3 (h : sha3_256) (SQ : list Z * list N) : Prop :=
   exists P p, snd SQ = P ++ p /\ Rl (m_state h, m_pos h) (fst SQ, P) /\
               m_bufsize h = length p /\ (length p < 8)%nat /\
               firstn (length p) (m_buffer h) = p /\ length (m_buffer h) = 8%nat.
 
-Lemma tail_refines h S P p data :
-  Rl (m_state h, m_pos h) (S, P) -> m_bufsize h = length p ->
+Lemma div8_facts a : (8 * (a / 8) <= a /\ a - 8 * (a / 8) < 8)%nat.
+Proof.
+  pose proof (Nat.div_mod a 8 ltac:(lia)). pose proof (Nat.mod_upper_bound a 8 ltac:(lia)). lia.
+Qed.
+
+Lemma sha3_tail_refines h T P p data :
+  Rl (m_state h, m_pos h) (T, P) -> m_bufsize h = length p ->
   firstn (length p) (m_buffer h) = p -> length (m_buffer h) = 8%nat ->
   (p = [] \/ (length p + length data < 8)%nat) ->
-  Rsha3 (sha3_write_tail h data) (absorb136 (S, P ++ p) data).
+  Rsha3 (sha3_write_tail h data) (absorb136 (T, P ++ p) data).
 Proof.
   intros HR Hbs Hpre Hbuf Hcase. unfold sha3_write_tail.
   destruct Hcase as [Hnil | Hsmall].
   - (* empty lane buffer: whole lanes straight from the input, the rest into the buffer *)
     subst p. rewrite app_nil_r. cbn [length] in *.
     set (n := (length data / 8)%nat).
-    assert (Hn : (8 * n <= length data)%nat) by (unfold n; lia).
-    pose proof (lanes_refine n data _ _ HR Hn) as HR2.
+    assert (Hn : (8 * n <= length data)%nat) by (unfold n; apply div8_facts).
+    pose proof (sha3_lanes_refine n data _ _ HR Hn) as HR2.
     set (sp2 := process8 n (m_state h, m_pos h) data) in *.
-    destruct (absorb136 (S, P) (firstn (8 * n) data)) as [S2 P2] eqn:Eabs.
+    destruct (absorb136 (T, P) (firstn (8 * n) data)) as [S2 P2] eqn:Eabs.
     replace (n * 8)%nat with (8 * n)%nat by lia.
     set (data2 := skipn (8 * n) data).
-    assert (Hl2 : (length data2 < 8)%nat) by (unfold data2, n; rewrite skipn_length; lia).
-    assert (Hfinal : absorb136 (S, P) data = (S2, P2 ++ data2)).
+    assert (Hl2 : (length data2 < 8)%nat) by (unfold data2, n; rewrite skipn_length; apply div8_facts).
+    assert (Hfinal : absorb136 (T, P) data = (S2, P2 ++ data2)).
     { rewrite <- (firstn_skipn (8 * n) data) at 1. rewrite <- (absorb_absorb _ _ _ pos136), Eabs.
       fold data2. apply absorb136_small.
       destruct HR2 as (_ & HP2 & Hpos2 & _). cbn [fst snd] in *. lia. }
@@ -364,11 +390,11 @@ Proof.
     + exists P2, data2. cbn [fst snd m_state m_pos m_bufsize m_buffer].
       destruct (memcpy_as_app (m_buffer h) 0 data2 [] eq_refl eq_refl ltac:(lia)) as [Hm1 Hm2].
       refine (conj _ (conj _ (conj _ (conj _ (conj _ _))))); try reflexivity; try assumption; try lia.
-      cbn [Nat.add] in Hm1. exact Hm1.
+      all: try (cbn [Nat.add] in Hm1; exact Hm1).
     + apply Nat.ltb_ge in E. assert (Hd2 : data2 = []) by (apply length_zero_nil; lia).
       exists P2, []. cbn [fst snd m_state m_pos m_bufsize m_buffer]. rewrite Hd2.
       refine (conj _ (conj _ (conj _ (conj _ (conj _ _))))); try reflexivity; try assumption.
-      cbn [length]. lia.
+      all: try (cbn [length]; lia).
   - (* not enough to complete the lane: everything is appended to the buffer *)
     assert (Hn0 : (length data / 8 = 0)%nat) by (apply Nat.div_small; lia).
     rewrite Hn0. cbn [process Nat.mul skipn].
@@ -391,9 +417,9 @@ Proof.
       cbn [length] in Hsmall. lia.
 Qed.
 
-Lemma write_refines h SQ data : Rsha3 h SQ -> Rsha3 (sha3_write h data) (absorb136 SQ data).
+Lemma sha3_write_refines h SQ data : Rsha3 h SQ -> Rsha3 (sha3_write h data) (absorb136 SQ data).
 Proof.
-  destruct SQ as [S Q]. intros (P & p & HQ & HR & Hbs & Hp8 & Hpre & Hbuf). cbn [fst snd] in *. subst Q.
+  destruct SQ as [T Q]. intros (P & p & HQ & HR & Hbs & Hp8 & Hpre & Hbuf). cbn [fst snd] in *. subst Q.
   unfold sha3_write. rewrite Hbs.
   destruct (negb (length p =? 0)%nat && (8 - length p <=? length data)%nat) eqn:Ecase.
   - (* the lane buffer is completed and absorbed first *)
@@ -405,36 +431,36 @@ Proof.
     assert (Hbufeq : buf = p ++ firstn k data).
     { unfold buf, memcpy. rewrite Hpre, Hkl. rewrite skipn_all2 by (unfold k; lia). rewrite app_nil_r. reflexivity. }
     assert (Hbuflen : length buf = 8%nat) by (rewrite Hbufeq, app_length, Hkl; unfold k; lia).
-    pose proof (lane_refines _ S P buf HR Hbuflen) as HR1.
+    pose proof (sha3_lane_refines _ T P buf HR Hbuflen) as HR1.
     set (sp1 := sha3_absorb_lane (m_state h, m_pos h) buf) in *.
-    destruct (absorb136 (S, P) buf) as [S1 P1] eqn:Eabs.
-    assert (Hsplit : absorb136 (S, P ++ p) data = absorb136 (S1, P1 ++ []) (skipn k data)).
+    destruct (absorb136 (T, P) buf) as [S1 P1] eqn:Eabs.
+    assert (Hsplit : absorb136 (T, P ++ p) data = absorb136 (S1, P1 ++ []) (skipn k data)).
     { rewrite <- (firstn_skipn k data) at 1. rewrite <- (absorb_absorb _ _ _ pos136). f_equal.
       rewrite app_nil_r, <- Eabs, Hbufeq. unfold absorb. cbn [fst snd]. rewrite !app_assoc. reflexivity. }
     rewrite Hsplit.
-    apply tail_refines; cbn [m_state m_pos m_bufsize m_buffer length firstn]; try reflexivity.
+    apply sha3_tail_refines; cbn [m_state m_pos m_bufsize m_buffer length firstn]; try reflexivity.
     + destruct sp1; exact HR1.
     + exact Hbuflen.
     + left. reflexivity.
   - (* empty lane buffer, or not enough data to complete it *)
-    apply tail_refines; try assumption.
+    apply sha3_tail_refines; try assumption.
     apply andb_false_iff in Ecase. destruct Ecase as [E | E].
     + left. apply negb_false_iff, Nat.eqb_eq in E. apply length_zero_nil. exact E.
     + right. apply Nat.leb_gt in E. lia.
 Qed.
 
-Lemma fold_write_refines chunks : forall h SQ,
+Lemma sha3_fold_write_refines chunks : forall h SQ,
   Rsha3 h SQ -> (length (snd SQ) < 136)%nat ->
   Rsha3 (fold_left sha3_write chunks h) (absorb136 SQ (concat chunks)).
 Proof.
   induction chunks as [|c cs IH]; intros h SQ HR Hlt.
   - cbn [fold_left concat]. rewrite (absorb_nil _ _ _ pos136) by exact Hlt. exact HR.
   - cbn [fold_left concat]. rewrite <- (absorb_absorb _ _ _ pos136).
-    apply IH; [apply write_refines; exact HR|].
+    apply IH; [apply sha3_write_refines; exact HR|].
     rewrite (absorb_pending_length _ _ _ pos136). apply Nat.mod_upper_bound. lia.
 Qed.
 
-Lemma init_refines ubuf : length ubuf = 8%nat -> Rsha3 (sha3_init ubuf) (repeat 0 25, []).
+Lemma sha3_init_refines ubuf : length ubuf = 8%nat -> Rsha3 (sha3_init ubuf) (repeat 0 25, []).
 Proof.
   intros Hu. exists [], []. unfold sha3_init, Rl. cbn [fst snd m_state m_pos m_bufsize m_buffer app length firstn le64_words].
   rewrite xor_in_nil.
@@ -454,15 +480,16 @@ Qed.
 (* std::fill(m_buffer + m_bufsize, m_buffer + 8, 0); m_buffer[m_bufsize] ^= 0x06; *)
 Lemma finalize_buffer buffer p :
   firstn (length p) buffer = p -> (length p < 8)%nat ->
-  (let buf := firstn (length p) buffer ++ zeros (8 - length p) in
-   firstn (length p) buf ++ N.lxor (nth (length p) buf 0%N) 6 :: skipn (Datatypes.S (length p)) buf)
+  firstn (length p) (firstn (length p) buffer ++ zeros (8 - length p)) ++
+  N.lxor (nth (length p) (firstn (length p) buffer ++ zeros (8 - length p)) 0%N) 6 ::
+  skipn (S (length p)) (firstn (length p) buffer ++ zeros (8 - length p))
   = p ++ 6%N :: zeros (7 - length p).
 Proof.
-  intros Hpre Hp. cbv zeta. rewrite Hpre.
-  replace (8 - length p)%nat with (Datatypes.S (7 - length p)) by lia.
+  intros Hpre Hp. rewrite Hpre.
+  replace (8 - length p)%nat with (S (7 - length p)) by lia.
   unfold zeros. cbn [repeat].
   rewrite firstn_exact_app. rewrite app_nth2 by lia. rewrite Nat.sub_diag. cbn [nth].
-  replace (Datatypes.S (length p)) with (length (p ++ [0%N])) by (rewrite app_length; simpl; lia).
+  replace (S (length p)) with (length (p ++ [0%N])) by (rewrite app_length; simpl; lia).
   replace (p ++ 0%N :: repeat 0%N (7 - length p)) with ((p ++ [0%N]) ++ repeat 0%N (7 - length p))
     by (rewrite <- app_assoc; reflexivity).
   rewrite skipn_exact_app. reflexivity.
@@ -502,10 +529,10 @@ Proof.
   unfold st_get. cbn [nth firstn map concat]. rewrite app_nil_r. reflexivity.
 Qed.
 
-Lemma finalize_refines h S Q :
-  Rsha3 h (S, Q) -> bytes_ok Q ->
+Lemma sha3_finalize_refines h T Q :
+  Rsha3 h (T, Q) -> bytes_ok Q ->
   sha3_finalize h =
-  concat (map (le_bytes 8) (firstn 4 (sha3_absorb_block S (Q ++ sha3_pad (length Q))))).
+  concat (map (le_bytes 8) (firstn 4 (sha3_absorb_block T (Q ++ sha3_pad (length Q))))).
 Proof.
   intros (P & p & HQ & HR & Hbs & Hp8 & Hpre & Hbuf) Hok. cbn [fst snd] in *. subst Q.
   destruct HR as (Hst & HP & Hpos & HS). cbn [fst snd] in *.
@@ -513,18 +540,19 @@ Proof.
   pose proof (le64_words_length pos P HP) as Hw.
   assert (Hokp : bytes_ok p).
   { unfold bytes_ok in *. apply Forall_app in Hok. apply Hok. }
-  unfold sha3_finalize. rewrite Hbs.
+  unfold sha3_finalize. cbv zeta. rewrite Hbs.
   rewrite (finalize_buffer (m_buffer h) p Hpre Hp8).
   set (L1 := le_value (p ++ 6%N :: zeros (7 - length p))).
   fold pos. rewrite Hst.
   change SHA3_RATE_BUFFERS with 17%nat. change (17 - 1)%nat with 16%nat.
-  rewrite <- Hw at 1 2. rewrite xor_in_snoc by lia.
+  cbv zeta.
+  pose proof (xor_in_snoc T (le64_words P) L1 ltac:(lia)) as Hsnoc. rewrite Hw in Hsnoc. rewrite Hsnoc.
   (* the block the specification absorbs *)
   set (F := (P ++ p) ++ sha3_pad (length (P ++ p))).
   assert (Hlanes :
-    st_set (xor_in S (le64_words P ++ [L1])) 16
-           (Z.lxor (st_get (xor_in S (le64_words P ++ [L1])) 16) 0x8000000000000000) =
-    xor_in S (le64_words F) /\ length F = 136%nat).
+    st_set (xor_in T (le64_words P ++ [L1])) 16
+           (Z.lxor (st_get (xor_in T (le64_words P ++ [L1])) 16) 0x8000000000000000) =
+    xor_in T (le64_words F) /\ length F = 136%nat).
   { destruct (Nat.eq_dec pos 16) as [E16 | Ene].
     - (* the padding starts in the last lane of the rate *)
       assert (HP128 : length P = 128%nat) by lia.
@@ -538,11 +566,11 @@ Proof.
       split; [|rewrite HF, app_length, Hplen; lia].
       rewrite HF, (le64_words_app pos) by exact HP. rewrite (le64_words_8 _ Hplen).
       rewrite <- (last_lane_16 p Hokp Hp8). fold L1.
-      rewrite <- (xor_in_snoc S (le64_words P) L1) by lia.
+      rewrite <- (xor_in_snoc T (le64_words P) L1) by lia.
       rewrite Hw, E16.
       rewrite st_set_set by (rewrite xor_in_length; lia).
       rewrite st_get_set by (rewrite xor_in_length; lia).
-      rewrite <- (xor_in_snoc S (le64_words P)) by lia. rewrite Hw, E16.
+      rewrite <- (xor_in_snoc T (le64_words P)) by lia. rewrite Hw, E16.
       rewrite Z.lxor_assoc. reflexivity.
     - (* 0x06 in lane pos < 16, zero lanes, 0x80 at the top of lane 16 *)
       assert (Hq : sha3_pad (length (P ++ p)) =
@@ -557,17 +585,19 @@ Proof.
       assert (Hl1 : length (p ++ 6%N :: zeros (7 - length p)) = 8%nat).
       { rewrite app_length. cbn [length]. rewrite zeros_length. lia. }
       split.
-      2:{ rewrite HF. rewrite !app_length, Hl1, !zeros_length. simpl length. lia. }
+      2:{ rewrite HF. rewrite !app_length. cbn [length]. rewrite !zeros_length. lia. }
       rewrite HF.
       rewrite (le64_words_app pos) by exact HP.
-      rewrite (le64_words_app 1) by exact Hl1.
-      rewrite (le64_words_app (15 - pos)) by apply zeros_length.
-      rewrite (le64_words_8 _ Hl1), le64_words_zeros. fold L1.
+      rewrite (le64_words_app 1 (p ++ 6%N :: zeros (7 - length p))) by exact Hl1.
+      rewrite (le64_words_8 _ Hl1).
+      rewrite (le64_words_app (15 - pos) (zeros (8 * (15 - pos)))) by apply zeros_length.
+      rewrite le64_words_zeros. fold L1.
       change (le64_words (zeros 7 ++ [128%N])) with [0x8000000000000000].
-      rewrite <- (xor_in_app_zeros S (le64_words P ++ [L1]) (15 - pos)).
+      rewrite <- (xor_in_app_zeros T (le64_words P ++ [L1]) (15 - pos)).
       assert (Hlen16 : length ((le64_words P ++ [L1]) ++ repeat 0 (15 - pos)) = 16%nat).
       { rewrite !app_length, repeat_length, Hw. simpl length. lia. }
-      rewrite <- Hlen16 at 1 2. rewrite xor_in_snoc by lia.
+      pose proof (xor_in_snoc T ((le64_words P ++ [L1]) ++ repeat 0 (15 - pos)) 0x8000000000000000 ltac:(lia)) as Hsnoc2.
+      rewrite Hlen16 in Hsnoc2. rewrite Hsnoc2.
       rewrite <- !app_assoc. reflexivity. }
   destruct Hlanes as [Hlanes HFlen]. rewrite Hlanes.
   rewrite keccakf_cpp_eq by (rewrite xor_in_length; exact HS).
@@ -586,7 +616,7 @@ Proof.
   - apply Nat.eqb_eq in E. cbn [length]. split; [|lia].
     replace (len + 1)%nat with (0 + (len / 136 + 1) * 136)%nat by lia. rewrite Nat.mod_add by lia. reflexivity.
   - apply Nat.eqb_neq in E. cbn [length]. rewrite app_length, zeros_length. cbn [length]. split; [|lia].
-    replace (len + Datatypes.S (136 - len mod 136 - 2 + 1))%nat with (0 + (len / 136 + 1) * 136)%nat by lia.
+    replace (len + S (136 - len mod 136 - 2 + 1))%nat with (0 + (len / 136 + 1) * 136)%nat by lia.
     rewrite Nat.mod_add by lia. reflexivity.
 Qed.
 
@@ -598,26 +628,23 @@ Proof.
   cbv zeta.
   destruct (sha3_pad_length (length msg)) as [Hmod Hrange].
   (* pending bytes after the message: length msg mod 136 *)
-  pose proof (absorb_pending_length _ _ _ pos136 (repeat 0 25, []) msg) as Hpend. cbn [snd app] in Hpend.
-  destruct (absorb136 (repeat 0 25, []) msg) as [S Q] eqn:Eabs. cbn [fst snd] in *.
+  pose proof (absorb136_pending (repeat 0 25, []) msg) as Hpend. cbn [snd app] in Hpend.
+  destruct (absorb136 (repeat 0 25, []) msg) as [T Q] eqn:Eabs. cbn [fst snd] in *.
   (* padded length is a multiple of the rate; the pad alone completes exactly one block after Q *)
   assert (HQpad : (length Q + length (sha3_pad (length msg)) = 136)%nat).
   { pose proof (Nat.mod_upper_bound (length msg) 136 ltac:(lia)) as Hub.
     pose proof (Nat.div_mod (length msg) 136 ltac:(lia)) as Hdm.
-    rewrite Hpend.
-    assert (Hz : ((length msg mod 136 + length (sha3_pad (length msg))) mod 136 = 0)%nat).
-    { rewrite <- Hmod. rewrite (Nat.add_mod (length msg) _ 136) by lia.
-      rewrite (Nat.add_mod (length msg mod 136) _ 136) by lia.
-      rewrite Nat.mod_mod by lia. reflexivity. }
-    pose proof (Nat.div_mod (length msg mod 136 + length (sha3_pad (length msg))) 136 ltac:(lia)) as Hdm2.
-    rewrite Hz in Hdm2.
-    assert (Hq : ((length msg mod 136 + length (sha3_pad (length msg))) / 136 = 1)%nat) by lia.
-    lia. }
-  pose proof (absorb_absorb _ _ _ pos136 (repeat 0 25, []) msg (sha3_pad (length msg))) as Haa.
+    pose proof (Nat.div_mod (length msg + length (sha3_pad (length msg))) 136 ltac:(lia)) as Hdm2.
+    rewrite Hmod in Hdm2. rewrite Hpend.
+    set (k2 := ((length msg + length (sha3_pad (length msg))) / 136)%nat) in *.
+    set (k1 := (length msg / 136)%nat) in *.
+    set (r := (length msg mod 136)%nat) in *.
+    set (pl := length (sha3_pad (length msg))) in *.
+    clearbody k2 k1 r pl. lia. }
+  pose proof (absorb136_absorb (repeat 0 25, []) msg (sha3_pad (length msg))) as Haa.
   rewrite Eabs in Haa. rewrite absorb136_full in Haa by exact HQpad.
-  unfold sha3_256_spec, sha3_padded, SHA3_RATE.
-  unfold absorb in Haa. cbn [fst snd app] in Haa.
-  inversion Haa as [[Hfst Hsnd]]. rewrite <- Hfst. reflexivity.
+  apply (f_equal fst) in Haa. rewrite absorb136_from_empty in Haa. cbn [fst] in Haa.
+  unfold sha3_256_spec, sha3_padded, SHA3_RATE. rewrite <- Haa. reflexivity.
 Qed.
 
 (* ================= MAIN THEOREM =================
@@ -630,17 +657,17 @@ Theorem sha3_stream_eq_spec ubuf chunks :
   sha3_finalize (fold_left sha3_write chunks (sha3_init ubuf)) = sha3_256_spec (concat chunks).
 Proof.
   intros Hu Hok. set (msg := concat chunks) in *.
-  pose proof (fold_write_refines chunks _ _ (init_refines ubuf Hu) ltac:(simpl; lia)) as HR.
+  pose proof (sha3_fold_write_refines chunks _ _ (sha3_init_refines ubuf Hu) ltac:(simpl; lia)) as HR.
   fold msg in HR.
   rewrite spec_as_absorb.
-  pose proof (absorb_pending_length _ _ _ pos136 (repeat 0 25, []) msg) as Hpend. cbn [snd app] in Hpend.
-  destruct (absorb136 (repeat 0 25, []) msg) as [S Q] eqn:Eabs. cbn [fst snd] in *.
+  pose proof (absorb136_pending (repeat 0 25, []) msg) as Hpend. cbn [snd app] in Hpend.
+  destruct (absorb136 (repeat 0 25, []) msg) as [T Q] eqn:Eabs. cbn [fst snd] in *.
   assert (HQ : Q = skipn (length msg / 136 * 136) msg).
-  { unfold absorb in Eabs. cbn [fst snd app] in Eabs. inversion Eabs. reflexivity. }
+  { rewrite absorb136_from_empty in Eabs. inversion Eabs. reflexivity. }
   assert (HokQ : bytes_ok Q).
   { rewrite HQ. unfold bytes_ok in *. rewrite <- (firstn_skipn (length msg / 136 * 136) msg) in Hok.
     apply Forall_app in Hok. apply Hok. }
-  rewrite (finalize_refines _ S Q HR HokQ).
+  rewrite (sha3_finalize_refines _ T Q HR HokQ).
   (* the padding depends on the length mod 136 only *)
   assert (Hpad : sha3_pad (length Q) = sha3_pad (length msg)).
   { unfold sha3_pad, SHA3_RATE. rewrite Hpend. rewrite Nat.mod_mod by lia. reflexivity. }
@@ -656,9 +683,16 @@ Proof.
   rewrite !sha3_stream_eq_spec by (try rewrite <- E; assumption). rewrite E. reflexivity.
 Qed.
 
+Lemma keccak_f_length_any st : length (keccak_f st) = 25%nat.
+Proof.
+  unfold keccak_f, keccak_RC. rewrite fold_left_cons. apply keccak_fold_length. apply keccak_round_length.
+Qed.
+
 Lemma sha3_256_spec_length msg : length (sha3_256_spec msg) = 32%nat.
 Proof.
   rewrite spec_as_absorb. cbv zeta.
   set (st := sha3_absorb_block _ _).
-  assert (Hl : length st = 25%nat) by (apply keccak_f_length; reflexivity || idtac).
-Abort.
+  assert (Hl : length st = 25%nat) by apply keccak_f_length_any.
+  destruct st as [|s0 [|s1 [|s2 [|s3 st]]]]; try discriminate Hl.
+  cbn [firstn map concat]. rewrite !app_length, !le_bytes_length. reflexivity.
+Qed.
